@@ -19,7 +19,32 @@ func main() {
 	replay := flag.String("replay", "", "violations file: re-evaluate the property and show those obligations")
 	manifest := flag.Bool("manifest", false, "regenerate /verif/MANIFEST.json from the rule registry")
 	selftest := flag.Bool("selftest", false, "run the checker's own fixtures")
+	seed := flag.String("seed", "", "directory of a seeded change (patch.diff): evaluate -p on the tree with the change applied in memory")
+	seedAll := flag.Bool("seedall", false, "evaluate every seeded change under /verif/seeded with its property and print the kill matrix")
 	flag.Parse()
+	if *seedAll {
+		os.Exit(rules.SeedMatrix())
+	}
+	if *seed != "" {
+		p := rules.Get(*prop)
+		if p == nil {
+			fmt.Fprintf(os.Stderr, "unknown property %q\n", *prop)
+			os.Exit(2)
+		}
+		vs, err := rules.RunOnSeed(p, *seed, "quick")
+		if err != nil {
+			fmt.Println("seed error:", err)
+			os.Exit(2)
+		}
+		for _, v := range vs {
+			fmt.Println("DETECTED", v)
+		}
+		if len(vs) == 0 {
+			fmt.Println("NOT DETECTED")
+			os.Exit(3)
+		}
+		return
+	}
 	if *manifest {
 		if err := writeManifest(); err != nil {
 			fmt.Fprintln(os.Stderr, err)
